@@ -61,9 +61,10 @@ def pick_value(f, kind, salt):
     if isinstance(d, bool):
         return d
     if isinstance(d, int):
-        return d + 1 + salt
+        # signed values too: a configuration value is a number whatever its sign ("-2" is an int, "+4" as well)
+        return -(d + 2 + salt) if salt % 3 == 1 else d + 1 + salt
     if isinstance(d, float):
-        return d * 1.5 + 0.125 + salt
+        return -(d * 1.5 + 0.125 + salt) if salt % 3 == 1 else d * 1.5 + 0.125 + salt
     if isinstance(d, str):
         return d      # free-form strings (paths, names): keep
     return d
